@@ -56,11 +56,27 @@ static int pack_files(sqfs_block_processor_t *data, fstree_t *fs,
 		      options_t *opt)
 {
 	tree_node_t *node;
-	int ret;
+	int ret = 0;
+#if !defined(_WIN32) && !defined(__WINDOWS__)
+	int cwd = -1;
+
+	/*
+	  The output file may have been given relative to the current
+	  directory and has to be removed from there if something fails.
+	 */
+	if (opt->packdir != NULL) {
+		cwd = open(".", O_RDONLY | O_DIRECTORY);
+		if (cwd < 0) {
+			perror("opening current working directory");
+			return -1;
+		}
+	}
+#endif
 
 	if (opt->packdir != NULL && chdir(opt->packdir) != 0) {
 		perror(opt->packdir);
-		return -1;
+		ret = -1;
+		goto out;
 	}
 
 	for (node = fs->files; node != NULL; node = node->next_by_type) {
@@ -71,7 +87,8 @@ static int pack_files(sqfs_block_processor_t *data, fstree_t *fs,
 			node_path = fstree_get_path(node);
 			if (node_path == NULL) {
 				perror("reconstructing file path");
-				return -1;
+				ret = -1;
+				goto out;
 			}
 
 			ret = canonicalize_name(node_path);
@@ -86,11 +103,22 @@ static int pack_files(sqfs_block_processor_t *data, fstree_t *fs,
 		ret = pack_file(data, path, node, opt);
 		free(node_path);
 
-		if (ret)
-			return -1;
+		if (ret) {
+			ret = -1;
+			goto out;
+		}
 	}
-
-	return 0;
+out:
+#if !defined(_WIN32) && !defined(__WINDOWS__)
+	if (cwd >= 0) {
+		if (fchdir(cwd) != 0) {
+			perror("returning to previous working directory");
+			ret = -1;
+		}
+		close(cwd);
+	}
+#endif
+	return ret;
 }
 
 int main(int argc, char **argv)
